@@ -23,7 +23,7 @@ OWNERS = {
     "constraint.py": ["C10", "C18", "C05"],
     "first_order_logic.py": ["C10"],
     "buffer.py": ["C09", "C18"],
-    "util.py": ["C09", "C03", "C04", "C08"],
+    "util.py": ["C09", "C03", "C04", "C08", "C18"],
     "indicator.py": ["C08", "C07", "C06"],
     "objective.py": ["C08", "C07", "C06", "C13"],
     "indicator_constraint.py": ["C08", "C18"],
@@ -88,6 +88,9 @@ def main():
     src = open(src_path).read()
     tree = ast.parse(src)
     S = [s for s in sites(tree) if kinds is None or s[1] in kinds]
+    if "--skip-lines" in sys.argv:  # e.g. 20-41: code no property speaks about
+        lo, hi = map(int, sys.argv[sys.argv.index("--skip-lines") + 1].split("-"))
+        S = [s for s in S if not lo <= int(s[2].split(":")[0].split()[1]) <= hi]
     # docstrings and type annotations are not interesting
     print(f"{fname}: {len(S)} mutation sites", flush=True)
     work = f"/tmp/mutrepo_{os.getpid()}"
